@@ -124,7 +124,7 @@ def gen(rng, tier):
         else:
             cs_.append(Case("dnsqx %s %d %s" % (kind, len(m), WH.mutate(rng, m + bytes(20))[: len(m)].hex()), kind="dns-mutated", malformed=1))
     # the parsers/formatters of the other properties, on their malformed streams
-    for mod, cnt in (("C05", 0.4), ("C06", 0.3), ("C18", 0.02), ("C03", 0.6)):
+    for mod, cnt in (("C05", 0.4), ("C06", 0.3), ("C18", 0.02), ("C03", 0.6), ("C20", 0.5)):
         g = importlib.import_module("props." + mod)
         sub = g.gen(rng, tier)
         rng.shuffle(sub)
